@@ -850,6 +850,9 @@ pub fn run_case(case: &Value) -> Vec<Value> {
         let waker = Waker::from(cw.clone());
         let mut done = false;
         let mut polls_total = 0usize;
+        // once a busy self-wake loop has been reported, later settles give up much sooner: the loop is
+        // already in the trace and re-running it for every 100 ms slice only burns time
+        let mut poll_limit = POLL_LIMIT;
 
         macro_rules! settle {
             () => {{
@@ -864,7 +867,8 @@ pub fn run_case(case: &Value) -> Vec<Value> {
                     }
                     polls += 1;
                     polls_total += 1;
-                    if polls > POLL_LIMIT {
+                    if polls > poll_limit {
+                        poll_limit = 40;
                         // the task keeps waking itself without any observable progress: report and
                         // treat it as quiescent until the next environment step
                         world.borrow_mut().ev(json!({"ev":"Spin","polls":polls}));
@@ -1032,15 +1036,41 @@ pub fn run_case(case: &Value) -> Vec<Value> {
 }
 
 pub fn replay(cases: &[Value], out: &mut TraceOut) {
+    // every case runs on its own thread under a wall-clock watchdog: a poll of the connection task that never
+    // returns (an endless loop inside the dispatcher) becomes a "Hang" event instead of a harness time-out
+    const HANG_SECS: u64 = 60;
+    const MAX_HANGS: usize = 3;
+    let mut hangs = 0usize;
     for (i, case) in cases.iter().enumerate() {
         out.emit(json!({"ev":"Reset","run":i+1,"cfg":case["cfg"],"gt":case["gt"],"pf":case["pf"],"sock":case["sock"],"rej":case["rej"],"epi":case["epi"],"total":case["total"]}));
+        if hangs >= MAX_HANGS {
+            out.emit(json!({"ev":"Skipped","t":0}));
+            continue;
+        }
         crate::alloc::reset_peak();
-        let evs = match crate::util::guarded(|| run_case(case)) {
-            Ok(e) => e,
-            Err(p) => vec![json!({"ev":"Panic","msg":p,"t":0})],
-        };
-        for e in evs {
-            out.emit(e);
+        let (tx, rx) = std::sync::mpsc::channel();
+        let c = case.clone();
+        std::thread::Builder::new()
+            .stack_size(16 << 20)
+            .spawn(move || {
+                let evs = match crate::util::guarded(|| run_case(&c)) {
+                    Ok(e) => e,
+                    Err(p) => vec![json!({"ev":"Panic","msg":p,"t":0})],
+                };
+                let _ = tx.send(evs);
+            })
+            .expect("spawn case thread");
+        match rx.recv_timeout(std::time::Duration::from_secs(HANG_SECS)) {
+            Ok(evs) => {
+                for e in evs {
+                    out.emit(e);
+                }
+            }
+            Err(_) => {
+                // the thread is left behind (it cannot be cancelled); it ends with the process
+                hangs += 1;
+                out.emit(json!({"ev":"Hang","t":0,"wall_s":HANG_SECS}));
+            }
         }
     }
 }
